@@ -10,13 +10,14 @@
    C02c_not_well_formed_is_error, C02c_no_language_is_error, C02c_callback_error_is_error   full
    C02c_success_means                                                                full
    C02c_encoder_linear_size        full for the encoder model: every tree whose names are non-empty C strings
-   C02c_linear_size                full with that hypothesis on the tree the front end built (Expat never reports an empty
-                                   name; not derived from the event list here: the front-end development has no such invariant yet)
+   C02c_linear_size                full: the hypothesis on the tree is discharged by C02c_front_end_names from (i) the table
+                                   names (C02c_tables_names_ok, by computation) and (ii) the one assumption about the oracle
+                                   that Expat never reports an empty element / attribute name
    C02c_encoder_recursion_depth    full for the call-depth function rdepth (read off parse_node's recursive calls; the
                                    cut at a CDATA node inside an open CDATA section is C02c_cdata_in_cdata_stops) *)
 From Coq Require Import List NArith String.
 From Wbxml Require Import Model.TablesDefs Model.Tables Model.LangSelect Model.Conv Model.EncWbxml Model.EncWbxmlTables Model.XmlFront Model.ConvXml2Wbxml.
-From Wbxml Require Import Proofs.XmlFrontProofs Proofs.XmlFrontTree Proofs.ConvXml2WbxmlProofs Proofs.EncWbxmlSize Proofs.EncWbxmlSize2 Proofs.ConvXml2WbxmlSize.
+From Wbxml Require Import Proofs.XmlFrontProofs Proofs.XmlFrontTree Proofs.XmlFrontNames Proofs.ConvXml2WbxmlProofs Proofs.EncWbxmlSize Proofs.EncWbxmlSize2 Proofs.ConvXml2WbxmlSize.
 From Wbxml Require Import Gen.TablesData.
 Import ListNotations.
 
@@ -90,6 +91,26 @@ Theorem C02c_linear_size :
             (all_names_ok (xt_roots t) -> List.length out <= 33 * wsizes (hdr_max btbl) (xt_roots t) + hdr_max btbl).
 Proof. exact xml2wbxml_linear_size. Qed.
 Print Assumptions C02c_linear_size.
+
+(* every name in a tree of the front end is a non-empty C string when the names Expat reports are *)
+Theorem C02c_front_end_names :
+  forall main expat, Forall lang_names_ok main -> (forall doc, Forall ev_names_ok (fst (expat doc))) ->
+  forall fuel doc t, tree_from_xml_fuel main expat fuel doc = inl t -> all_names_ok (xt_roots t).
+Proof. exact tree_from_xml_fuel_names. Qed.
+Print Assumptions C02c_front_end_names.
+
+Theorem C02c_linear_size_expat :
+  forall main btbl expat fuel o doc out n,
+  Forall lang_names_ok main -> Forall lang_vals_ok btbl -> (forall d, Forall ev_names_ok (fst (expat d))) ->
+  xml2wbxml main btbl expat fuel o doc = mk_res ST_OK (Some out) n ->
+  exists t, tree_from_xml_fuel main expat fuel doc = inl t /\
+            List.length out <= 33 * wsizes (hdr_max btbl) (xt_roots t) + hdr_max btbl.
+Proof. exact xml2wbxml_linear_size_expat. Qed.
+Print Assumptions C02c_linear_size_expat.
+
+Theorem C02c_tables_names_ok : Forall lang_names_ok main_table.
+Proof. exact main_table_names_ok. Qed.
+Print Assumptions C02c_tables_names_ok.
 
 (* the table hypothesis holds for the regenerated tables; the header constant is 50 there *)
 Theorem C02c_tables_vals_ok : Forall lang_vals_ok main_btable.
